@@ -545,8 +545,11 @@ def dumpTraceRet (w : World) (m : Machine) : String :=
 /-- `dump_trace (DUMP_WITH_ARGS | DUMP_WITH_LOCALVARS)`: which lines follow each frame line.  `num_arg` and
     `num_local` are variables of the whole function (initially -1): FRAME_FUNCTION and FRAME_FUNP set both,
     FRAME_FAKE and FRAME_CATCH reset `num_arg` only; "arguments:" is printed when `num_arg != -1`, "local variables:"
-    when `num_local > 0 && num_arg != -1`.  Input per frame: kind and the counts the frame would supply. -/
-def dtaGo : List (Nat × Int × Int) → Int × Int → List String
+    when `num_local > 0 && num_arg != -1`.  For the INNERMOST frame (the last element) there is one more test in front of
+    the two blocks: `if (num_arg != -1 && fp + num_arg + num_local - 1 > sp) num_arg = -1;` (`Gen.C18.innerUnbuilt`,
+    transcribed; `d` = sp - fp) — a frame that is still being set up shows no variables.
+    Input per frame: kind and the counts the frame would supply. -/
+def dtaGo (d : Int) : List (Nat × Int × Int) → Int × Int → List String
   | [], _ => []
   | (kind, na, nl) :: rest, (pa, pl) =>
     let k := kind % (frameMask + 1)
@@ -555,12 +558,13 @@ def dtaGo : List (Nat × Int × Int) → Int × Int → List String
       else if k = frameFake then some (-1, pl) else if k = frameCatch then some (-1, pl) else none
     match st with
     | none =>                               -- no frame line; the two blocks below still look at the stale counters
-      ((if pa ≠ -1 then "A" else "") ++ (if pl > 0 ∧ pa ≠ -1 then "L" else "")) :: dtaGo rest (pa, pl)
+      ((if pa ≠ -1 then "A" else "") ++ (if pl > 0 ∧ pa ≠ -1 then "L" else "")) :: dtaGo d rest (pa, pl)
     | some (a, l) =>
-      ("F" ++ (if a ≠ -1 then "A" else "") ++ (if l > 0 ∧ a ≠ -1 then "L" else "")) :: dtaGo rest (a, l)
+      let a' := if rest.isEmpty ∧ a ≠ -1 ∧ innerUnbuilt a l d = true then -1 else a
+      ("F" ++ (if a' ≠ -1 then "A" else "") ++ (if l > 0 ∧ a' ≠ -1 then "L" else "")) :: dtaGo d rest (a', l)
 
-def dumpTraceArgs (m : Machine) (counts : List (Int × Int)) : List String :=
+def dumpTraceArgs (m : Machine) (counts : List (Int × Int)) (d : Int) : List String :=
   if m.cur.prog = "-" then [] else
-  dtaGo ((m.cs.zip counts).map fun (e, c) => (e.kind, c.1, c.2)) (-1, -1)
+  dtaGo d ((m.cs.zip counts).map fun (e, c) => (e.kind, c.1, c.2)) (-1, -1)
 
 end NV.C18
